@@ -15,3 +15,47 @@ Theorem C05_repaired_rejects :
   Verify T true (the_stump c10) [lf 0] [8] [n25] = Err.
 Proof. exact D4_repaired_rejects. Qed.
 Print Assumptions C05_repaired_rejects.
+
+From Utreexo Require Import Base.Hash Proofs.CalcSound Proofs.CalcComplete Proofs.StumpUpdate.
+
+(** The repaired roots-only verifier applies a block exactly as the reference forest does: given the
+    canonical proof of the deleted (distinct, live) leaves it accepts, and its new roots and leaf
+    count are those of the reference after the block — for every forest up to 2^63 leaves, every
+    block.  (The forests are tied to the same reference by the correspondence check and, for their
+    read side, by the C09/C10 theorems.) *)
+Theorem C05_stump_applies_block_like_reference :
+  forall (H : Type) (HO : ops H), ops_ok HO ->
+  (forall a b, NZ HO (op_hash2 HO a b)) ->
+  forall filler (s : slots H) (hs adds : list H) (ts : list N) (pf : list H),
+  (forall h, In (Some h) s -> NZ HO h) ->
+  (forall h, In h adds -> NZ HO h) ->
+  NoDup (live s) ->
+  N.of_nat (length s + length adds) <= 2 ^ 63 ->
+  NoDup hs ->
+  exp_prove HO (mk_ctx HO s) hs = Some (ts, pf) ->
+  exists st' ud,
+    stump_update HO true filler (the_stump (mk_ctx HO s)) hs adds ts pf = (st', Ok ud) /\
+    st_roots st' = roots HO (apply_block HO s hs adds) /\
+    st_n st' = num_leaves (apply_block HO s hs adds) /\
+    u_prev ud = num_leaves s.
+Proof. exact stump_update_refines. Qed.
+Print Assumptions C05_stump_applies_block_like_reference.
+
+(** ... and so over whole histories of valid blocks, from the empty accumulator *)
+Theorem C05_stump_follows_reference_history :
+  forall (H : Type) (HO : ops H), ops_ok HO ->
+  (forall a b, NZ HO (op_hash2 HO a b)) ->
+  forall filler (bs : list (list H * list H)),
+  N.of_nat (total_adds H bs) <= 2 ^ 63 -> valid_hist H HO [] bs ->
+  run_stump H HO filler (mkStump [] 0) [] bs
+  = Some (stump_of H HO (apply_hist H HO [] bs), apply_hist H HO [] bs).
+Proof. exact stump_history_refines_empty. Qed.
+Print Assumptions C05_stump_follows_reference_history.
+
+Theorem C05_stump_follows_reference_history_term :
+  forall filler (bs : list (list term * list term)),
+  N.of_nat (total_adds term bs) <= 2 ^ 63 -> valid_hist term term_ops [] bs ->
+  run_stump term term_ops filler (mkStump [] 0) [] bs
+  = Some (stump_of term term_ops (apply_hist term term_ops [] bs), apply_hist term term_ops [] bs).
+Proof. exact stump_history_refines_term. Qed.
+Print Assumptions C05_stump_follows_reference_history_term.
